@@ -701,7 +701,17 @@ def c09_cases(rng, tier):
             prog = prog + [P(rng.choice([0, 1])), op("HLTIF"), P(4)]
         cases.append(case(prog, stack=rand_stack(rng, rng.choice([0, 2, 4])), limit=5000,
                           mode=rng.choice(["ops", "ops", "eval", "bytes"])))
-    return cases, []
+    # the program of theorem C09.sum_loop_result (entered at the Repeat with [0, n, 1] on the stack): the implementation must give
+    # what the theorem predicts for the model — 1 + 3n gas, the sum 0 + … + (n - 1) — and the model must agree case by case
+    oracles = []
+    sum_prog = [P(0), P(0), P(1), op("REP"), op("REPC"), op("ADD"), op("REPE")]
+    for n in (1, 2, 3, 7, 100, 4096, 65537, 1_000_000) + (() if tier == "quick" else (30_000_000,)):
+        c = case(sum_prog, pc=3, stack=[0, n, 1])
+        exp = f"ok {1 + 3 * n} pc=7 halt=0 st=[{n * (n - 1) // 2}] mem=[] rep=[]"
+        oracles.append("o_out x" + exp.encode().hex() + " " + c)
+        if n <= 65537:
+            cases.append(c)
+    return cases, oracles
 
 
 def c10_cases(rng, tier):
